@@ -17,6 +17,11 @@ mod c19;
 mod c11;
 mod c08;
 mod c05;
+mod c09;
+mod c10;
+mod c07;
+mod c17;
+mod c12;
 
 fn main() {
     let args: Vec<String> = std::env::args().collect();
@@ -41,6 +46,11 @@ fn main() {
         "c08" => c08::main(rest),
         "c05" => c05::main05(rest),
         "c06" => c05::main06(rest),
+        "c09" => c09::main(rest),
+        "c10" => c10::main(rest),
+        "c07" => c07::main(rest),
+        "c17" => c17::main(rest),
+        "c12" => c12::main(rest),
         other => {
             eprintln!("unknown property {other}");
             std::process::exit(2);
